@@ -653,8 +653,12 @@ Linear_System<Row>
     // `j' will be the index of such a element.
     Row& row_k = rows[k];
     const dimension_type j = row_k.expr.last_nonzero();
-    // TODO: Check this.
-    PPL_ASSERT(j != 0);
+    if (j == 0) {
+      // All the homogeneous coefficients of the equality are zero
+      // (this happens when simplifying an unsatisfiable system):
+      // there is no variable to substitute.
+      continue;
+    }
 
     // Go through the equalities above `row_k'.
     for (dimension_type i = k; i-- > 0; ) {
